@@ -105,7 +105,7 @@ class C04(Property):
         sess = rng.pick(self.SESSIONS)
         handles = sorted(world.session(sess))
         cfg = world.cfg
-        ops = [("new", 3), ("load", 3), ("foreign_sg", 2), ("stopgap2emmotl", 1)]
+        ops = [("new", 3), ("load", 3), ("foreign_sg", 2), ("stopgap2emmotl", 1), ("from_sg_df", 2)]
         if handles:
             ops += [("to_sg", 3), ("write", 4), ("filter", 2), ("emmotl2stopgap", 2), ("wrap", 1), ("reshift", 2)]
         op = rng.weighted(ops)
@@ -119,6 +119,19 @@ class C04(Property):
                 rng.shuffle(idx)
             return {"op": "new", "sess": sess, "h": self.new_handle(world), "rows": self.gen_rows(rng, n),
                     "index": idx, "wrap": rng.pick(["df", "Motl", "StopgapMotl", "StopgapMotl"])}
+        if op == "from_sg_df":
+            n = rng.randrange(1, cfg["max_rows"] + 1)
+            style = rng.pick(["default", "shuffled", "gaps", "shifted"])
+            idx = None
+            if style == "shuffled":
+                idx = list(range(n))
+                rng.shuffle(idx)
+            elif style == "gaps":
+                idx = sorted(rng.sample(range(3 * n + 2), n))
+            elif style == "shifted":
+                idx = [i + 1 for i in range(n)]
+            return {"op": "from_sg_df", "sess": sess, "h": self.new_handle(world), "rows": self.gen_rows(rng, n), "index": idx,
+                    "halfsets": [rng.pick("AB") for _ in range(n)], "api": rng.pick(["StopgapMotl", "stopgap2emmotl"])}
         if op == "wrap":
             return {"op": "wrap", "sess": sess, "src": rng.pick(handles), "h": self.new_handle(world),
                     "wrap": rng.pick(["StopgapMotl", "StopgapMotl(StopgapMotl)", "Motl.load"])}
@@ -525,6 +538,36 @@ class C04(Property):
         if step["order"] != list(range(16)):
             world.probes["foreign_column_order"] += 1
         return [path]
+
+    def op_from_sg_df(self, world, step):
+        """a STOPGAP-format table handed over in memory (read elsewhere, then filtered / sorted: any index labels)"""
+        sess = world.session(step["sess"])
+        mat = rows_to_matrix(step["rows"])
+        n = len(mat)
+        data = {"motl_idx": np.arange(1, n + 1, dtype=float), "halfset": list(step["halfsets"])}
+        for em, sg in RENAME:
+            data[sg] = mat[:, IDX[em]]
+        df = pd.DataFrame(data, columns=SG_COLS)
+        if step.get("index"):
+            df.index = step["index"]
+            world.probes["sg_table_nondefault_index"] += 1
+        fn = cryomotl.StopgapMotl if step["api"] == "StopgapMotl" else cryomotl.stopgap2emmotl
+        out = world.call(step["sess"], fn, df)
+        world.note("from_sg_df %s -> %s" % (step["api"], out.describe()))
+        if not out.ok:
+            raise Violation("construct_raised", "from_sg_df:%s:%s" % (step["api"], out.describe()),
+                            "%s(<STOPGAP table in memory>) raised %r\n%s" % (step["api"], out.exc, out.tb))
+        want = np.full((n, 20), np.nan)
+        for em, _sg in RENAME:
+            want[:, IDX[em]] = mat[:, IDX[em]]
+        self.check_shared(world, out.value.df, want, "%s(STOPGAP table, %s index)" % (step["api"], "non-default" if step.get("index") else "default"),
+                          clause="convert_values")
+        try:
+            sess[step["h"]] = {"obj": out.value, "model": self.actual_matrix(out.value.df)}
+        except Exception:
+            pass
+        world.stats["acks"] += 1
+        return []
 
     def op_stopgap2emmotl(self, world, step):
         sess = world.session(step["sess"])
